@@ -55,6 +55,7 @@ THEOREMS = [
     "Verif.C18.decode_sound",
     "Verif.C18.legacy_frame_ranges",
     "Verif.C18.export_selection_frames",
+    "Verif.C18.export_selection_index",
     "Verif.C18.export_selection_roi",
     "Verif.C18.export_uniform",
     "Verif.C18.reexport_fixed_point",
@@ -73,10 +74,11 @@ RULE = (
     "dtype x clip combinations, derived objects (frame slices, pixel crops incl. down to one pixel, time slices, "
     "crop_by_distance, flip, position down-sampling with mean -> fractional values). mixin: export_tiff driven "
     "directly with values from the boundary set of every dtype (negative, fractional, 255/256, 65535/65536, 2^24+-1, "
-    "float32 max and beyond, subnormal) and timestamp ranges at 0, 1, 10^k, 2^63-1 and negative. datetime: strings from "
-    "the grammar, with leading zeros, final newline, and malformed ones. Non-trivial: a selection that is a proper "
-    "subset / a cast with at least one value outside the range or fractional / a legacy or variable-exposure stack / "
-    "a malformed string / an error outcome."
+    "float32 max and beyond, subnormal, float32 ties) and timestamp ranges at 0, 1, 10^k, 2^63-1 and negative. datetime: "
+    "strings from the grammar, with leading zeros, final newline, and malformed ones. Non-trivial: a stack export with a "
+    "non-empty selection program or a legacy / variable-exposure / multi-file stack; every confocal case (a complete "
+    "export -> raw re-read -> reopen -> re-export x2 of a real object with a dtype cast); a mixin cast with a value "
+    "outside the range, a fractional value or float32 rounding; every DateTime string and legacy range list."
 )
 TRUSTED = [
     "tifffile (writing and reading pages, tags, descriptions) and json are not modelled; the raw re-read goes through tifffile as well",
@@ -555,8 +557,18 @@ def impl_confocal(case):
             try:
                 obj = build_confocal(case)
                 obs["base_image"] = np.array(obj.get_image())
+            except Exception as e:
+                obs["query_error"] = "building the object / get_image(): " + repr(e)
+                return [errname(e), "not-written"]
+            try:
                 for op in case["derive"]:
                     obj = apply_derive(obj, op)
+                    if not obj or int(obj.pixels_per_line) == 0:
+                        raise IndexError("empty object")  # nothing left (C06: 'degenerate'); nothing to export
+            except Exception as e:
+                obs["derive_error"] = repr(e)
+                return [errname(e), errname(e)]
+            try:
                 img = np.array(obj.get_image())
                 obs["image"] = img
                 obs["kind_frames"] = int(obj.num_frames) if case["kind"] == "scan" else 1
@@ -575,8 +587,8 @@ def impl_confocal(case):
                 obs["pixelsize_um"] = list(obj.pixelsize_um)
                 obs["fast_pixels"] = int(obj.pixels_per_line)
             except Exception as e:
-                obs["derive_error"] = repr(e)
-                return [errname(e), errname(e)]
+                obs["query_error"] = "get_image() / timestamp ranges / pixel size of the (derived) object: " + repr(e)
+                return [errname(e), "not-written"]
             try:
                 obj.export_tiff(p1, dtype=DT_NP[case["dtype"]], clip=case["clip"])
             except Exception as e:
@@ -652,6 +664,8 @@ def oracle_confocal(case, ia):
     if "derive_error" in obs:
         # deriving the object is the business of C06; only documented refusals are expected here
         return None
+    if "query_error" in obs:
+        return f"object-unusable: {obs['query_error']}"
     img = obs["image"]
     # (0) the un-derived image against the independent reconstruction from the info wave
     ref_img, ref_times = reference_confocal(case)
@@ -1410,6 +1424,8 @@ def extra_coverage(results):
         if k in ("kymo", "scan"):
             for o in c["derive"]:
                 derived[o[0]] = derived.get(o[0], 0) + 1
+            if "derive_error" in c.get("_obs", {}):
+                derived["(derivation refused, nothing exported)"] = derived.get("(derivation refused, nothing exported)", 0) + 1
     return {
         "case_kinds": kinds, "outcomes": outcomes, "dtype_clip": dtypes, "stack_program_ops": ops_n, "stack_colours": colours,
         "stack_exposure_modes": exposure_modes, "stack_pages": {str(k): v for k, v in sorted(sizes.items())},
